@@ -23,7 +23,7 @@ def obligations(tier, seed):
         kw['name'] = 'mock/op%02x/sv%d/st%s/pairs%s/%s' % (kw['op'], kw['sv'], '.'.join(map(str, kw['lens'])), '+'.join('%dx%d' % p for p in kw['pairs']), kw['rel'])
         obs.append(kw)
     for sv in (R.BASE, R.WITNESS_V0, R.TAPROOT, R.TAPSCRIPT):
-        for (sl, kl) in ((1, 33), (9, 33), (1, 1), (0, 33)) + (((64, 32),) if sv in (R.TAPROOT, R.TAPSCRIPT) else ()):
+        for (sl, kl) in ((1, 33), (9, 33), (1, 1), (0, 33)) + (((64, 32), (0, 32), (65, 32)) if sv in (R.TAPROOT, R.TAPSCRIPT) else ()):
             for o in (0xac, 0xad):
                 for rel in ('same', 'free'):
                     add(op=o, sv=sv, lens=(sl, kl), pairs=[(sl, kl)], rel=rel)
